@@ -280,6 +280,19 @@ pub fn run(ctx: &Ctx) -> Report {
         } else if spec.lut == LutKind::FullQuick {
             preds.push(vec![Op::arg(K::SetLut, 2)]);
         }
+        // buffers of another length than the frame where the driver accepts them (a driver that pads or
+        // clamps must stay fail-stop on that path too); skipped by the dry run where the driver rejects them
+        for k in [K::UpdateFrame, K::UpdateAndDisplay] {
+            if let Some(e) = spec.full_entry(k) {
+                let full = spec.entry_buf_len(e);
+                let row = ((spec.w + 7) / 8) as usize;
+                for len in [full / 2, full.saturating_sub(row), full + row] {
+                    if len > 0 && len != full {
+                        cases.push(Case { spec, prefix: vec![], target: Some(Op::img(k, Img::Coded { salt: 0xC04 + len as u32, len })), ctx_tag: "other-length" });
+                    }
+                }
+            }
+        }
         for s in &syms {
             for cut in 0..s.len() {
                 let prefix: Vec<Op> = s[..cut].to_vec();
